@@ -315,7 +315,11 @@ def main(tier, seed):
         for ll in lengths:
             evals += 1
             hist["line_lengths"] += 1
-            opts = [] if ll is None else ["-l", str(ll)]
+            if isinstance(ll, tuple):          # option letters plus an optional length: ("tc", 40)
+                opts = ["-" + c for c in ll[0]] + ([] if ll[1] is None else ["-l", str(ll[1])])
+                ll = "%s%s" % ll
+            else:
+                opts = [] if ll is None else ["-l", str(ll)]
             what = None
             sig_split = None
             rc, outs, msg = pp(srcp, os.path.join(d, "o1_%s" % ll), opts)
@@ -375,7 +379,8 @@ def main(tier, seed):
         shutil.rmtree(d, ignore_errors=True)
         return first
 
-    lengths = [None, 40, 200] if tier == "quick" else [None, 10, 20, 40, 75, 132, 1000, 99999]
+    lengths = [None, 40, 200, ("t", None), ("c", 60), ("tc", 30)] if tier == "quick" else \
+        [None, 10, 20, 40, 75, 132, 1000, 99999, ("t", None), ("c", None), ("tc", None), ("t", 10), ("c", 25), ("tc", 40), ("c", 75), ("tc", 99999)]
     ngen = 6 if tier == "quick" else 100
     for k in range(ngen):
         r = rng(seed, "c07/%d" % k)
